@@ -271,6 +271,30 @@ func (c *checker) checkAll(st subscription.Store, m *refmodel.SubTable, usedFilt
 			c.violation(kind, "filter="+f, g, w)
 		}
 	}
+	// 2b. exact-filter lookups with strings nobody subscribed to, among them the prefixes of the shared form: nothing is stored
+	// under them, so nothing comes back (and the lookup returns)
+	for _, f := range []string{"$share/", "$share/g", "$share", "$share//", "$share/g/", "/", "$", "a//"} {
+		if usedFilters[f] {
+			continue
+		}
+		var want []refmodel.Sub
+		for _, s := range m.All() {
+			if s.Full() == f {
+				want = append(want, s)
+			}
+		}
+		func() {
+			defer func() {
+				if p := recover(); p != nil {
+					c.violation("lookup.match_name_panic", "filter="+f, fmt.Sprint(p), refmodel.Canon(want))
+				}
+			}()
+			got := collect(st, subscription.IterationOptions{Type: subscription.TypeAll, TopicName: f, MatchType: subscription.MatchName})
+			if g, w := refmodel.Canon(got), refmodel.Canon(want); g != w {
+				c.violation("lookup.match_name_unused", "filter="+f, g, w)
+			}
+		}()
+	}
 	// 3. per-client listing
 	for _, cl := range c.u.clients {
 		var want []refmodel.Sub
